@@ -335,7 +335,7 @@ func genPCfgOpt(t *rapid.T, kind string, maxBuf int, eqShrink bool) PCfg {
 		c.HashBits1 = genHashBits(t, "hashBits1", i1)
 		c.HashBits2 = genHashBits(t, "hashBits2", i2)
 	case "GSAP":
-		c.MinMatchLen = rapid.SampledFrom([]int{3, 2, 0, 4, 5, 6, 8}).Draw(t, "minMatchLen")
+		c.MinMatchLen = rapid.SampledFrom([]int{3, 2, 0, 4, 5, 6, 8, 3, 2, 0, 4, 17, 18, 19, 24, 33}).Draw(t, "minMatchLen")
 		mm := c.MinMatchLen
 		if mm == 0 {
 			mm = 3
@@ -346,7 +346,7 @@ func genPCfgOpt(t *rapid.T, kind string, maxBuf int, eqShrink bool) PCfg {
 			c.WindowSize = mm
 		}
 	case "OSAP":
-		c.MinMatchLen = rapid.SampledFrom([]int{3, 2, 0, 4, 5, 6, 8}).Draw(t, "minMatchLen")
+		c.MinMatchLen = rapid.SampledFrom([]int{3, 2, 0, 4, 5, 6, 8, 3, 2, 0, 4, 17, 18, 19, 24, 33}).Draw(t, "minMatchLen")
 		mm := c.MinMatchLen
 		if mm == 0 {
 			mm = 3
